@@ -44,6 +44,11 @@ def input_effects(it, input_ids):
                 bad.append(e)
             elif isinstance(e.target, Sym):
                 bad.append(e)
+        elif e.kind == 'inplace-op':
+            # an augmented assignment whose left operand is (derived from)
+            # the caller's data and may be a mutable object
+            if T.mentions(e.target, lambda t: t.op in ('param', 'field')):
+                bad.append(e)
     return bad
 
 
@@ -133,6 +138,23 @@ def run(chk, ctx):
         for b in input_effects(e['interp'], ids):
             bad_all.append(('frame.marshal(%s)' % ci.short, b))
         scan_outputs(e['interp'], e['outs'], ci.short)
+    # body, heartbeat and protocol header frames (the body value is left
+    # untyped: nothing in the library requires it to be immutable bytes)
+    for cshort, attrs in (
+            ('body.ContentBody', {'value': Sym('field', 'value')}),
+            ('heartbeat.Heartbeat', {}),
+            ('header.ProtocolHeader', {k: Sym('field', k) for k in (
+                'major_version', 'minor_version', 'revision')})):
+        it_b = ctx.interp(pol)
+        st_b = ctx.new_state()
+        ref_b = it_b.alloc(st_b, I.InstObj(prog.cls(cshort), attrs))
+        outs_b = it_b.run_function(prog.function('frame.marshal'),
+                                   [ref_b, Sym('param', 'channel_id')], {},
+                                   st_b)
+        runs += 1
+        for b in input_effects(it_b, {ref_b.id}):
+            bad_all.append(('frame.marshal(%s)' % cshort, b))
+        scan_outputs(it_b, outs_b, cshort)
     he = H.encode(ctx, pol)
     runs += 1
     for b in input_effects(he['interp'], he['input_ids']):
